@@ -22,7 +22,19 @@ def _registry(verif):
         return json.load(f)['modules']
 
 
+_RUN_CACHE = {}
+
+
 def run_module(mod, repo, verif, timeout=3000):
+    """memoised per process: one check never runs the same module twice on the same tree (a module that hangs on a
+    changed tree costs its timeout once, not once per use)"""
+    key = (mod.get('file'), mod.get('filter'), mod.get('features'), repo)
+    if key not in _RUN_CACHE:
+        _RUN_CACHE[key] = _run_module(mod, repo, verif, timeout)
+    return _RUN_CACHE[key]
+
+
+def _run_module(mod, repo, verif, timeout=3000):
     """append the test module to its target file in a scratch copy and run it.
     returns (ran: bool, failures: [(test, message)], log_tail)"""
     scratch = tempfile.mkdtemp(prefix='verif-replay-')
